@@ -172,9 +172,10 @@ class RuleProxy:
     """runs another property's rule set inside this one: only the rules in `mapping` are kept, under their new names
     (clauses shared by two properties are decided once and reported under both)"""
 
-    def __init__(self, ctx, mapping):
+    def __init__(self, ctx, mapping, key_filter=None):
         self._ctx = ctx
         self._map = mapping
+        self._kf = key_filter
 
     def __getattr__(self, name):
         return getattr(self._ctx, name)
@@ -183,23 +184,23 @@ class RuleProxy:
         return self._map.get(rule)
 
     def ok(self, rule, key, detail='', where=None, term=None):
-        if self._r(rule):
+        if self._r(rule) and (self._kf is None or self._kf(key)):
             return self._ctx.ok(self._r(rule), key, detail, where, term)
 
     def bad(self, rule, key, detail='', where=None, term=None):
-        if self._r(rule):
+        if self._r(rule) and (self._kf is None or self._kf(key)):
             return self._ctx.bad(self._r(rule), key, detail, where, term)
 
     def unproved(self, rule, key, detail='', where=None, term=None):
-        if self._r(rule):
+        if self._r(rule) and (self._kf is None or self._kf(key)):
             return self._ctx.unproved(self._r(rule), key, detail, where, term)
 
     def info(self, rule, key, detail='', where=None):
-        if self._r(rule):
+        if self._r(rule) and (self._kf is None or self._kf(key)):
             return self._ctx.info(self._r(rule), key, detail, where)
 
     def check(self, cond, rule, key, ok_detail='', bad_detail='', where=None):
-        if self._r(rule):
+        if self._r(rule) and (self._kf is None or self._kf(key)):
             return self._ctx.check(cond, self._r(rule), key, ok_detail, bad_detail, where)
         return cond
 
